@@ -345,6 +345,7 @@ type e2eClient struct {
 	mts    int64
 	hasM   bool
 	syncCh chan struct{}
+	q      client.Query
 }
 
 func e2eStartClient(addr, name string, queries [][]string, typ client.Type, mts int64, hasM bool) *e2eClient {
@@ -373,6 +374,7 @@ func e2eStartClient(addr, name string, queries [][]string, typ client.Type, mts 
 		}
 		return nil
 	}
+	cl.q = q
 	go func() { cl.done <- cl.cc.Subscribe(ctx, q, gclient.Type) }()
 	return cl
 }
@@ -476,8 +478,28 @@ func (cl *e2eClient) finish(once bool) string {
 	cl.mu.Lock()
 	synced := cl.synced
 	cl.mu.Unlock()
+	requery := ""
+	if once && status == "" && synced {
+		// the same client object asks again (an application that clears its view and re-queries; what
+		// client.Reconnect does after every ended stream): at quiescence the second ONCE query shows what the
+		// first did.  Independent of the model: only ever adds a suffix when the two views differ.  Found
+		// necessary by seeded change c01_seed11 (the closed flag of the previous Subscribe leaking into the next).
+		cl.cc.Tree = &ctree.Tree{}
+		ctx2, cancel2 := context.WithTimeout(context.Background(), e2eDeadline)
+		err := cl.cc.Subscribe(ctx2, cl.q, gclient.Type)
+		cancel2()
+		if again := e2eRenderLeaves(cl.cc.Leaves()); err != nil || again != e2eRenderLeaves(leaves) {
+			requery = "!second-query-on-the-same-client=" + again
+			if err != nil {
+				requery += "(err)"
+			}
+		}
+	}
 	cl.cancel()
 	cl.cc.Close()
+	if requery != "" {
+		return encStr(cl.name) + "=sync" + e2eRenderLeaves(leaves) + requery
+	}
 	if status == "" {
 		status = "nosync"
 		if synced {
